@@ -8,7 +8,7 @@ from props.diskcommon import (SIDE_FD, SIDE_SD, argv_sources, compare_action, dm
 from props.tapecommon import CaseDir
 
 GEN_FILES = ["GenDisk"]
-RULE = ("(a) the same source list given to moto_sdar and moto_fdar: the .sd must be the .fd with 256 bytes FF after every sector; (b) every valid 4-sided image (tool-made, "
+RULE = ("(a) the same source list given to moto_sdar and moto_fdar (in an interpreter that, in two cases out of three, has just made another archive with one of the two tools only): the .sd must be the .fd with 256 bytes FF after every sector; (b) every valid 4-sided image (tool-made, "
         "independent-writer-made with any filler / table bytes / padding bytes, the bundled real image) through a no-op --add: byte-identical (.sd: payload-identical, padding "
         "normalised to FF); (c) library-level payload assignments of every length 0..600 at any sector of either flavour: the sector keeps its size, the first min(n,256) bytes "
         "are replaced, the rest kept, the saved image keeps its length. signature = (kind, flavour, flags); non-trivial = (a) with data, (b) with files, (c) with length > 256 or == 0")
@@ -40,7 +40,7 @@ def gen_cases(rng, tier):
     for _ in range(n):
         r = rng.random()
         if r < 0.35:
-            cases.append({"kind": "pair", "sources": gen_sources(rng, rng.choice([0, 1, 3, 6]), eos_rate=0.12, big_rate=0.03), "verbose": rng.random() < 0.3})
+            cases.append({"kind": "pair", "sources": gen_sources(rng, rng.choice([0, 1, 3, 6]), eos_rate=0.12, big_rate=0.03), "verbose": rng.random() < 0.3, "history": rng.choice([None, "fd", "sd"])})
         elif r < 0.7:
             q = rng.random()
             base = {"spec": gen_third_party(rng, nsides=4, max_files=4)} if q < 0.55 else {"spec": gen_third_party(rng, is_fd=True, nsides=rng.choice([1, 2]), max_files=3), "with_source": rng.random() < 0.5} if q < 0.75 else {"bundled": rng.choice(["fd", "sd"])}
@@ -109,6 +109,14 @@ def run_case(case, ctx):
             fs, contents = setup_sources(cd, case["sources"])
             v = case["verbose"]
             raws = {}
+            if case.get("history"):
+                # the interpreter that makes the pair has just made another archive with ONE of the two tools: what a tool writes does not depend on what it wrote before
+                hfd = case["history"] == "fd"
+                os.makedirs(os.path.join(cd.cwd, "earlier"), exist_ok=True)
+                with open(os.path.join(cd.cwd, "earlier", "e.dat"), "wb") as f_:
+                    f_.write(bytes(range(1, 256)) * 40)
+                run_disk(ctx, hfd, ["-c", "earlier/e" + ext_of(hfd), "earlier/e.dat"], cd, timeout=120)
+                f.add("history:" + case["history"])
             for is_fd in (True, False):
                 arch = "img" + ext_of(is_fd)
                 r = run_disk(ctx, is_fd, ["-c"] + (["-v"] if v else []) + [arch] + argv_sources(case["sources"]), cd, timeout=120)
@@ -189,6 +197,8 @@ def shrink_candidates(case):
         s = case["sources"]
         for k in range(len(s)):
             yield dict(case, sources=s[:k] + s[k + 1:])
+        if case.get("history"):
+            yield dict(case, history=None)
     elif case["kind"] == "lib":
         v = case["values"]
         for k in range(len(v)):
